@@ -1,6 +1,7 @@
-// C18 conformance harness: executes scripts of SimpleStringInternalCache calls on a private cache whose
-// underlying allocator records (and numbers) every allocation, and logs one ndjson line per call with the
-// observations Trace_StrCache binds.  It never judges.
+// C18 conformance harness: executes scripts of SimpleStringInternalCache calls on a private cache (`new` .. `del`), or of
+// SimpleStringCacheAllocator / SimpleString calls under a GlobalSimpleStringCache (`gnew` .. `gdel`), whose underlying
+// allocator records (and numbers) every allocation, and logs one ndjson line per call with the observations
+// Trace_StrCache binds.  It never judges.
 //   strcache probe <out.ndjson> <maxsize>              one line per size: what a fresh cache does for alloc(s)+dealloc
 //   strcache run <script.tsv> <log.ndjson> <bound>...  script lines: op<TAB>a<TAB>n ; `reset` = fresh cache
 #include "vh.h"
@@ -40,7 +41,7 @@ public:
 static void capture_fputs(const char* s, PlatformSpecificFile) { g_printed += s; }
 static void no_flush() {}
 
-struct Buf { char* p; size_t n; long mem; unsigned char pat; bool live; };
+struct Buf { char* p; size_t n; long mem; unsigned char pat; bool live; SimpleString* str; };
 
 static void locate(char* p, long& mem, long& room)
 {
@@ -112,9 +113,10 @@ int main(int argc, char** argv)
     std::vector<size_t> bounds;
     for (int i = 4; i < argc; i++) bounds.push_back((size_t) atol(argv[i]));
 
-    SimpleStringInternalCache* cache = new SimpleStringInternalCache;
-    cache->setAllocator(&rec);
-    std::vector<Buf> bufs;          // bufs[k-1] = result of the k-th alloc call of this execution
+    SimpleStringInternalCache* cache = NULL;     // the bare cache of this execution (op `new` .. `del`)
+    GlobalSimpleStringCache* global = NULL;      // the global cache of this execution (op `gnew` .. `gdel`)
+    TestMemoryAllocator* previous = SimpleString::getStringAllocator();   // the string allocator in place before the cache
+    std::vector<Buf> bufs;          // bufs[k-1] = result of the k-th alloc / snew call of this execution
     std::string line;
     while (vh_readline(in, line)) {
         if (line.empty()) continue;
@@ -124,38 +126,70 @@ int main(int argc, char** argv)
         long a = atol(f[1].c_str());
         size_t n = (size_t) atol(f[2].c_str());
         if (op == "reset") {
-            cache->clearAllIncludingCurrentlyUsedMemory();
-            delete cache;
+            // strings that outlived a global cache are abandoned, never destructed (their buffers went back with the cache)
+            if (cache) { cache->clearAllIncludingCurrentlyUsedMemory(); delete cache; cache = NULL; }
+            if (global) { delete global; global = NULL; }
+            SimpleString::setStringAllocator(NULLPTR);
             drop_all_underlying();
             bufs.clear();
-            cache = new SimpleStringInternalCache;
-            cache->setAllocator(&rec);
             fprintf(out, "{\"op\":\"reset\"}\n");
             continue;
         }
         g_got.clear(); g_ret.clear(); g_printed.clear();
         long mem = 0, room = 0;
-        if (op == "alloc") {
-            char* p = cache->alloc(n);
+        bool need_cache = !(op == "new" || op == "gnew");
+        if (need_cache && !cache && !global) { fprintf(out, "{\"op\":\"harness-error\",\"what\":\"no cache object\"}\n"); break; }
+        if (!need_cache && (cache || global)) { fprintf(out, "{\"op\":\"harness-error\",\"what\":\"cache object exists\"}\n"); break; }
+        if (op == "new") {
+            previous = SimpleString::getStringAllocator();
+            cache = new SimpleStringInternalCache;
+            cache->setAllocator(&rec);
+        } else if (op == "gnew") {
+            // the recording allocator is SimpleString's string allocator; the global cache installs itself over it
+            SimpleString::setStringAllocator(&rec);
+            previous = SimpleString::getStringAllocator();
+            global = new GlobalSimpleStringCache;
+        } else if (op == "del" && cache) {
+            delete cache;
+            cache = NULL;
+        } else if (op == "gdel" && global) {
+            delete global;
+            global = NULL;
+            for (size_t i = 0; i < bufs.size(); i++) bufs[i].live = false;   // the owners are abandoned, not destructed
+        } else if (op == "alloc") {
+            char* p = cache ? cache->alloc(n) : global->getAllocator()->alloc_memory(n, __FILE__, __LINE__);
             locate(p, mem, room);
-            Buf b; b.p = p; b.n = n; b.mem = mem; b.pat = (unsigned char) (0x40 + (bufs.size() * 7) % 0xB0); b.live = true;
+            Buf b; b.p = p; b.n = n; b.mem = mem; b.pat = (unsigned char) (0x40 + (bufs.size() * 7) % 0xB0); b.live = true; b.str = NULL;
             memset(p, b.pat, n);          // the owner uses every byte it asked for (ASan watches the bounds)
             if (n) p[n - 1] = 0;          // ... as a terminated string (the unknown-release warning prints the buffer)
             bufs.push_back(b);
-        } else if (op == "dealloc") {
-            if (a < 1 || (size_t) a > bufs.size() || !bufs[(size_t) a - 1].live) { fprintf(out, "{\"op\":\"harness-error\",\"what\":\"no such buffer\"}\n"); break; }
+        } else if (op == "snew" && global && n > 0) {
+            // a SimpleString whose buffer has n bytes: exactly one buffer request through SimpleString's string allocator
+            Buf b; b.n = n; b.pat = (unsigned char) (0x40 + (bufs.size() * 7) % 0xB0); b.live = true;
+            std::string text(n - 1, (char) b.pat);
+            b.str = new SimpleString(text.c_str());
+            b.p = const_cast<char*>(b.str->asCharString());
+            locate(b.p, mem, room);
+            b.mem = mem;
+            bufs.push_back(b);
+        } else if (op == "dealloc" || op == "sdel") {
+            if (a < 1 || (size_t) a > bufs.size() || !bufs[(size_t) a - 1].live || (op == "sdel") != (bufs[(size_t) a - 1].str != NULL)) {
+                fprintf(out, "{\"op\":\"harness-error\",\"what\":\"no such buffer\"}\n"); break; }
             Buf& b = bufs[(size_t) a - 1];
             mem = b.mem;
             b.live = false;
-            cache->dealloc(b.p, n);
+            if (b.str) { n = b.str->size() + 1; delete b.str; b.str = NULL; }
+            else if (cache) cache->dealloc(b.p, n);
+            else global->getAllocator()->free_memory(b.p, n, __FILE__, __LINE__);
         } else if (op == "foreign") {
-            cache->dealloc(g_foreign[a & 3], n);
-        } else if (op == "clearcache") {
+            if (cache) cache->dealloc(g_foreign[a & 3], n);
+            else global->getAllocator()->free_memory(g_foreign[a & 3], n, __FILE__, __LINE__);
+        } else if (op == "clearcache" && cache) {
             cache->clearCache();
-        } else if (op == "clearall") {
+        } else if (op == "clearall" && cache) {
             cache->clearAllIncludingCurrentlyUsedMemory();
             for (size_t i = 0; i < bufs.size(); i++) bufs[i].live = false;
-        } else { fprintf(out, "{\"op\":\"harness-error\",\"what\":\"unknown op\"}\n"); break; }
+        } else { fprintf(out, "{\"op\":\"harness-error\",\"what\":\"unknown op or wrong kind of cache\"}\n"); break; }
 
         bool intact = true;
         for (size_t i = 0; i < bufs.size() && intact; i++)
@@ -163,11 +197,17 @@ int main(int argc, char** argv)
                 for (size_t k = 0; k < bufs[i].n; k++)
                     if ((unsigned char) bufs[i].p[k] != (k + 1 == bufs[i].n ? 0 : bufs[i].pat)) { intact = false; break; }
         std::string hf = "[";
-        for (size_t i = 0; i < bounds.size(); i++) { hf += (i ? "," : ""); hf += cache->hasFreeBlocksOfSize(bounds[i]) ? "true" : "false"; }
+        if (cache)
+            for (size_t i = 0; i < bounds.size(); i++) { hf += (i ? "," : ""); hf += cache->hasFreeBlocksOfSize(bounds[i]) ? "true" : "false"; }
         hf += "]";
-        fprintf(out, "{\"op\":%s,\"a\":%ld,\"n\":%lu,\"mem\":%ld,\"room\":%ld,\"got\":%s,\"ret\":%s,\"warn\":%s,\"hasfree\":%s,\"intact\":%s}\n",
+        TestMemoryAllocator* now = SimpleString::getStringAllocator();
+        const char* cur = (global && now == global->getAllocator()) ? "cache" : (now == previous ? "under" : "other");
+        fprintf(out, "{\"op\":%s,\"a\":%ld,\"n\":%lu,\"mem\":%ld,\"room\":%ld,\"got\":%s,\"ret\":%s,\"warn\":%s,\"hasfree\":%s,\"intact\":%s,\"cur\":\"%s\"}\n",
                 vh_jstr(op).c_str(), a, (unsigned long) n, mem, room, ids(g_got).c_str(), ids(g_ret).c_str(),
-                g_printed.empty() ? "false" : "true", hf.c_str(), intact ? "true" : "false");
+                g_printed.empty() ? "false" : "true", hf.c_str(), intact ? "true" : "false", cur);
+        // between two cache objects SimpleString uses its default allocator again (the recording allocator sees only what a
+        // cache obtains; a dangling adaptor is never left installed)
+        if (!global && !cache) SimpleString::setStringAllocator(NULLPTR);
     }
     fflush(out);
     fclose(out);
